@@ -352,9 +352,14 @@ def run(rep, tier, seed):
                           "the analysis pass (Model/Analysis.v: in_step, metadata, timer). Proved over the models: "
                           "C02_full (for every source whose blocks are all block_ok, any two of the 192 sets give the same "
                           "event stream and the same analysis result, given only the converter-dependent hypothesis "
-                          "oracle_quiet); the converse readings for COMPONENT_ALIAS and RANGE_VALUES for any source. "
-                          "Not proved, monitored on the implementation only: the absence of errors on well-formed core "
-                          "recipes and the converse readings of the other six families at document level")
+                          "oracle_quiet); the converse readings for ANY source and any extension word lacking the flag, for all "
+                          "eight families (C02_alias/range/modifiers/intermediate/advanced/modes/timer_time_off_document and "
+                          "C02_diag_codes_document on the parser model; C02_inline_off_analysis/_no_inline, "
+                          "C02_advanced_off_analysis, C02_modes_off_analysis on the analysis model for any event stream); "
+                          "C02_core_no_errors_partial (a text spelling a printer specification that is well formed under each of "
+                          "the 192 sets parses under each of them without panic and without any diagnostic) and "
+                          "C02_no_errors_transport. Not proved, monitored on the implementation only: the absence of errors for "
+                          "core_doc sources that come without such a specification (front matter, free layout)")
     distinct = set(t for t, _, _ in core_ok) | set(fam_inputs) | set(s for s in strings if any(c in s for c in "@~>="))
     rep.coverage.update({
         "evaluations": parses + lev_cases,
